@@ -13,13 +13,14 @@ import (
 	"github.com/tucats/ego/internal/router"
 	"github.com/tucats/ego/internal/runtime/profile"
 	"github.com/tucats/ego/internal/server/admin"
-	"github.com/tucats/ego/verif/egorun"
 )
 
 // TestTriage (C44_TRIAGE=1) reproduces the findings against the real code
 // without the server fixture and without the scanner: the handlers and
 // functions are called directly and the response is searched with
-// strings.Contains for a literal value.
+// strings.Contains for a literal value. (The profile.Get findings are not
+// repeated here: the package must not depend on egorun, whose hooks an older
+// tree under VERIF_REPO may lack.)
 func TestTriage(t *testing.T) {
 	if os.Getenv("C44_TRIAGE") == "" {
 		t.Skip()
@@ -44,10 +45,6 @@ func TestTriage(t *testing.T) {
 	admin.GetAllConfigHandler(&router.Session{ID: 2}, rec, httptest.NewRequest("GET", "/admin/config", nil))
 	for _, n := range []string{defs.ServerTokenKeySetting, defs.LogonTokenSetting, defs.LogonRefreshTokenSetting, defs.OAuthClientSecretSetting, defs.LogonUserdataKeySetting, defs.DefaultCredentialSetting} {
 		t.Logf("GET /admin/config: %s leaks=%v", n, strings.Contains(rec.Body.String(), "S3CR3T-"+n))
-	}
-	for _, n := range []string{defs.ServerTokenKeySetting, defs.OAuthClientSecretSetting, defs.DefaultCredentialSetting} {
-		r := egorun.Run("import \"profile\"\nfunc main() {\n fmt.Println(profile.Get(\""+n+"\"))\n}\n", egorun.Config{Types: "dynamic", Extensions: true, EntryPoint: "main"})
-		t.Logf("profile.Get(%s): leaks=%v (%q run=%v compile=%v panic=%v)", n, strings.Contains(r.Stdout, "S3CR3T-"), strings.TrimSpace(r.Stdout), r.RunErr, r.CompileErr, r.GoPanic)
 	}
 	d := dsns.NewDSN("x", "postgres", "db", "dbuser", `pa"ss<word`, "localhost", 5432, false, false)
 	cs, err := dsns.Connection(d)
